@@ -632,9 +632,12 @@ pub fn sweep(ctx: &Ctx, rep: &mut Report, mode: Mode, extra_ops: &dyn Fn(&NTree)
 pub fn random_data(rng: &mut Rng, uid: &mut u64) -> Vec<u8> {
     *uid += 1;
     let tag = format!("#{}#", uid);
-    match rng.below(8) {
+    match rng.below(10) {
         0 => vec![],
         1 => vec![b'q'],
+        // carriage returns that are not the one before a newline: a line keeps them, only "\r\n" and "\n" end it
+        8 => format!("c1\r\nc2\r\r\n{}\r", tag).into_bytes(),
+        9 => format!("{}\rmid\r\n\r", tag).into_bytes(),
         2 => format!("é€😀{}", tag).into_bytes(),
         3 => {
             let mut v = vec![0xff, 0xfe];
